@@ -107,6 +107,9 @@ def perform(action):
     """execute one real entry point; returns a small result record (runs in the child)"""
     from bob.errors import BuildError, BobError
     kind = action["kind"]
+    if action.get("tmpdir"):
+        import tempfile
+        tempfile.tempdir = action["tmpdir"]      # default directory of temporary files: another file system
     try:
         if kind == "package":
             a = _mk_archive(action["spec"])
@@ -346,6 +349,7 @@ class Normaliser:
         self.in_exit = False
         self.writes_before_exit = None
         self.write_failed = False
+        self.exit_failing = False
         self.active = False
         self.done = False
         self.dir_seen = False
@@ -358,6 +362,18 @@ class Normaliser:
 
     def feed(self, c):
         """-> (event or None, relevant: bool).  relevant = the call touches the archive / upstream file"""
+        ev, rel = self._feed(c)
+        if ev is None and not rel and self.active and c.get("injected") and c.get("errno"):
+            # an injected error on a call outside the archive (workspace read/write ...): the with-body raises
+            self.write_failed = True
+            return ({"op": "bodyFail", "res": "inj", "sys": c["sys"]}, False)
+        return ev, rel
+
+    def summary(self):
+        return {"marker": self.writes_before_exit is not None, "writes_before_exit": self.writes_before_exit,
+                "exit_failing": self.exit_failing, "nwrites": self.nwrites, "read_bytes": self.read_bytes}
+
+    def _feed(self, c):
         s = c["sys"]
         if s in ("+killed", "+exited"):
             return ({"op": s[1:]}, False)
@@ -374,6 +390,7 @@ class Normaliser:
                 if not self.in_exit:
                     self.in_exit = True
                     self.writes_before_exit = self.nwrites
+                    self.exit_failing = self.write_failed
             return (None, False)
         if not self.active:
             return (None, False)
